@@ -138,6 +138,9 @@ func cmdCheck(args []string) {
 			if tagged && len(o.props) > 0 && !hasProp(o.props, *prop) {
 				continue
 			}
+			if o.thoroughOnly && *tier != "thorough" {
+				continue
+			}
 			for _, f := range findings {
 				if f.kind == "finding" && f.oblig == o.name {
 					o.baseline = true // recorded finding: one solver, quick timeout
@@ -267,6 +270,7 @@ func cmdCheck(args []string) {
 	}
 	fmt.Printf("property=%s tier=%s functions=%d obligations=%d discharged=%d known-findings=%d violations=%d wall=%.1fs\n",
 		*prop, *tier, len(results), nObl, discharged, len(known), len(failed), time.Since(t0).Seconds())
+	os.RemoveAll(dir)
 	os.Exit(exit)
 }
 
